@@ -27,16 +27,16 @@ type Pigeon struct {
 	B *Bridge
 	V *Val
 
-	Down            bool  // process not running
-	DownUntil       int64 // height at which it comes back (0 = manual)
-	EVMPartitioned  bool  // cannot reach the remote chains
-	NoKeepAlive     bool
-	KeepAliveEvery  int64
-	lastKeepAlive   int64
-	Version         string
-	EagerConfirm    bool // confirm batches before their estimate is elected
-	ClaimsPerTick   int
-	NoSkyway        bool
+	Down                                  bool  // process not running
+	DownUntil                             int64 // height at which it comes back (0 = manual)
+	EVMPartitioned                        bool  // cannot reach the remote chains
+	NoKeepAlive                           bool
+	KeepAliveEvery                        int64
+	lastKeepAlive                         int64
+	Version                               string
+	EagerConfirm                          bool // confirm batches before their estimate is elected
+	ClaimsPerTick                         int
+	NoSkyway                              bool
 	NoSign, NoEstimate, NoRelay, NoAttest bool
 
 	// relayed remembers what this pigeon already relayed (lost on crash).
